@@ -178,7 +178,7 @@ def cases(tier):
                 out.append(Case(f"flow/{kind}/{dim}/{mkind}", run_group,
                                 {"probs": [("flow", {"kind": kind, "dim": dim, "mkind": mkind})]}, timeout_s=900))
     for kind in ("constr", "gauss_constr"):
-        for mkind in ("identity", "diag", "dense", "eig"):
+        for mkind in ("identity", "scaled", "diag", "dense", "eig"):
             if kind == "gauss_constr" and mkind == "dense":
                 mkind = "dense_eig"
             out.append(Case(f"flow/{kind}/2/{mkind}", run_group, {"probs": [("flow", {"kind": kind, "dim": 2, "mkind": mkind})]},
